@@ -64,6 +64,32 @@ extern "C" fn mock_finish(cont: RealCont) -> u64 {
 }
 static MOCK_VT: MockVt = MockVt { c_peek: mock_peek, c_bump: mock_bump, finish: mock_finish };
 
+#[repr(C, align(32))]
+pub struct Big32(pub Pay);
+
+macro_rules! c07_tree {
+    ($v:expr, $ctx:expr, $count:expr) => {{
+        let v = $v;
+        let obj = trait_obj!((P::new(v), $ctx) as Maker);
+        assert!($count == 2, "building the context handle neither takes nor releases a reference");
+        let c1 = obj.make();
+        let c2 = obj.make_group();
+        assert!($count == 4, "every derived object holds its own clone of the context");
+        let ending: u8 = nd::any();
+        nd::assume(ending < 3);
+        let mut tail = None;
+        match ending {
+            0 => drop(obj),
+            1 => { assert!(obj.finish() == v ^ 4); }
+            _ => { tail = Some(obj.into_leaf()); }
+        }
+        let t = if tail.is_some() { 1 } else { 0 };
+        assert!($count == 3 + t);
+        assert!(c1.val() == v ^ 1 && c2.val() == v ^ 2);
+        if nd::any() { drop(c1); drop(c2); drop(tail); } else { drop(tail); drop(c2); drop(c1); }
+    }};
+}
+
 nd::harnesses! {
     /// The caller-side glue of a consuming call keeps its own clone of the context alive until the
     /// callee has returned: after the callee released the reference it received, one more (besides
@@ -171,38 +197,30 @@ nd::harnesses! {
         reset();
         let v: u32 = nd::any();
         let base = std::sync::Arc::new(Pay::new(v));
-        macro_rules! tree {
-            ($ctx:expr) => {{
-                let obj = trait_obj!((P::new(v), $ctx) as Maker);
-                assert!(std::sync::Arc::strong_count(&base) == 2, "building the context handle neither takes nor releases a reference");
-                let c1 = obj.make();
-                let c2 = obj.make_group();
-                assert!(std::sync::Arc::strong_count(&base) == 4, "every derived object holds its own clone of the context");
-                let ending: u8 = nd::any();
-                nd::assume(ending < 3);
-                let mut tail = None;
-                match ending {
-                    0 => drop(obj),
-                    1 => { assert!(obj.finish() == v ^ 4); }
-                    _ => { tail = Some(obj.into_leaf()); }
-                }
-                let t = if tail.is_some() { 1 } else { 0 };
-                assert!(std::sync::Arc::strong_count(&base) == 3 + t);
-                assert!(c1.val() == v ^ 1 && c2.val() == v ^ 2);
-                if nd::any() { drop(c1); drop(c2); drop(tail); } else { drop(tail); drop(c2); drop(c1); }
-            }};
-        }
         let kind: u8 = nd::any();
         nd::assume(kind < 4);
         nd::cover!(kind == 2, "CArcSome obtained from CArc");
         match kind {
-            0 => tree!(CArc::<Pay>::from(base.clone())),
-            1 => tree!(CArcSome::<Pay>::from(base.clone())),
-            2 => tree!(CArc::<Pay>::from(base.clone()).transpose().unwrap()),
-            _ => tree!(CArcSome::<Pay>::from(base.clone()).transpose()),
+            0 => c07_tree!(v, CArc::<Pay>::from(base.clone()), std::sync::Arc::strong_count(&base)),
+            1 => c07_tree!(v, CArcSome::<Pay>::from(base.clone()), std::sync::Arc::strong_count(&base)),
+            2 => c07_tree!(v, CArc::<Pay>::from(base.clone()).transpose().unwrap(), std::sync::Arc::strong_count(&base)),
+            _ => c07_tree!(v, CArcSome::<Pay>::from(base.clone()).transpose(), std::sync::Arc::strong_count(&base)),
         }
         assert!(std::sync::Arc::strong_count(&base) == 1, "after all derived objects are dropped the count is back to its starting value");
         drop(base);
+        assert!(live() == 0 && drops() == made());
+    }
+
+    /// The same tree with an OPAQUE handle to an over-aligned payload as the context: the counters are reachable only
+    /// through the functions stored in the handle by its creator.
+    #[kani::unwind(4)]
+    fn c07_opaque_overaligned_arc_context_tree() {
+        reset();
+        let v: u32 = nd::any();
+        let big = std::sync::Arc::new(Big32(Pay::new(v)));
+        c07_tree!(v, CArc::<Big32>::from(big.clone()).into_opaque(), std::sync::Arc::strong_count(&big));
+        assert!(std::sync::Arc::strong_count(&big) == 1, "after all derived objects are dropped the count is back to its starting value");
+        drop(big);
         assert!(live() == 0 && drops() == made());
     }
 
@@ -359,8 +377,10 @@ nd::harnesses! {
                     assert!(ctx_live() == 3, "a cast moves the context");
                     let c2 = c.clone();
                     assert!(ctx_live() == 4);
-                    let back = c.upcast();
-                    assert!(ctx_live() == 4);
+                    // back to the base group: `upcast()` or the generated `From` conversion
+                    let back = if nd::any() { c.upcast() } else { DupGrp::from(c) };
+                    assert!(ctx_live() == 4, "casting back moves the context, it neither clones nor releases it");
+                    assert!(live() == 3, "... and does not destroy the instance");
                     drop(back);
                     assert!(ctx_live() == 3 && c2.d_val() == v);
                 }
